@@ -22,6 +22,7 @@ def main():
     chan = fakes.FakeChannel()
     GRPCService.start = lambda self: setattr(self, 'channel', chan)
     lives = int(sys.argv[1]) if len(sys.argv) > 1 else 2
+    same = len(sys.argv) > 2 and sys.argv[2] == 'same'       # later lives = Deep.start() on the SAME agent object
     sent = []
 
     def poll(request):
@@ -35,14 +36,29 @@ def main():
     out = {'lives': []}
 
     def body():
+        d = None
         for life in range(lives):
-            d = deep.start({'SERVICE_URL': 'fake:1', 'SERVICE_SECURE': 'False', 'POLL_TIMER': 3600, 'APP_ROOT': wd})
+            if d is None or not same:
+                d = deep.start({'SERVICE_URL': 'fake:1', 'SERVICE_SECURE': 'False', 'POLL_TIMER': 3600, 'APP_ROOT': wd})
+            else:
+                d.start()
             d.task_handler.flush()
             d.task_handler._open = True
+            expected, why = 1, 'the service tracepoint'
+            if same:
+                if life == 0:
+                    # a tracepoint registered in code on the same line: it stays registered for the later lives
+                    d.register_tracepoint(os.path.basename(path), marks['beat'], {'fire_count': '-1', 'fire_period': '0'},
+                                          ['n + 100'])
+                    d.task_handler.flush()
+                    d.task_handler._open = True
+                expected, why = 2, 'the service tracepoint and the one registered in code during the first life'
+            with rec.LOCK:
+                rec.EVENTS.append({'ev': 'settled'})
             before = len(sent)
             res = mod.beat(1)
             d.shutdown()
-            out['lives'].append({'result': res, 'snapshots': len(sent) - before,
+            out['lives'].append({'result': res, 'snapshots': len(sent) - before, 'expected': expected, 'expected_from': why,
                                  'installed': sorted({a.id for t in d.trigger_handler._tp_config for a in t.actions})})
     th = threading.Thread(target=body)
     th.start()
